@@ -227,6 +227,31 @@ def coincident(r, q):
     return p if r.random() < 0.75 else [-x for x in p]
 
 
+def neardup_rv(r, rs):
+    """class d: consecutive columns equal or isApprox-equal (3e-3 relative) — exposes 'reuse the previous column' shortcuts"""
+    out = [rs[0]]
+    for _ in rs[1:]:
+        p = out[-1]
+        if r.random() < 0.2:
+            out.append(list(p))
+        else:
+            d = rand_dir(r)
+            sc = 3e-3 * max(vnorm(p), 0.05)
+            out.append([x + sc * y for x, y in zip(p, d)])
+    return out
+
+
+def neardup_q(r, qs):
+    out = [qs[0]]
+    for _ in qs[1:]:
+        p = out[-1]
+        if r.random() < 0.2:
+            out.append(list(p))
+        else:
+            out.append(list(qmul(true_exp([3e-3 * x for x in rand_dir(r)]), p)))
+    return out
+
+
 def gen_phase1(g, n_each):
     r = g.r
     cases = []
@@ -234,17 +259,26 @@ def gen_phase1(g, n_each):
     for k in range(n_each):
         n = widths[k % len(widths)]
         st = RV_STYLES[(k // len(widths)) % len(RV_STYLES)]
-        cases.append(mk_qexp([gen_rotvec(r, st if r.random() < 0.8 else r.choice(RV_STYLES)) for _ in range(n)], style=st))
+        rs = [gen_rotvec(r, st if r.random() < 0.8 else r.choice(RV_STYLES)) for _ in range(n)]
+        if n >= 2 and st == "general" and r.random() < 0.5:
+            rs, st = neardup_rv(r, rs), "near-duplicate-columns"
+        cases.append(mk_qexp(rs, style=st))
     for k in range(n_each):
         n = widths[k % len(widths)]
         st = Q_STYLES[(k // len(widths)) % len(Q_STYLES)]
-        cases.append(mk_qlog([gen_quat(r, st if r.random() < 0.8 else r.choice(Q_STYLES)) for _ in range(n)], style=st))
+        qs = [gen_quat(r, st if r.random() < 0.8 else r.choice(Q_STYLES)) for _ in range(n)]
+        if n >= 2 and st in ("uniform", "negative-w") and r.random() < 0.5:
+            qs, st = neardup_q(r, qs), "near-duplicate-columns"
+        cases.append(mk_qlog(qs, style=st))
     for k in range(n_each):
         n = widths[k % len(widths)]
         m = r.choice([1, 1, 2, 3])
         st = RV_STYLES[(k // len(widths)) % len(RV_STYLES)]
         qb = [gen_quat(r, r.choice(Q_STYLES)) for _ in range(m)]
-        cases.append(mk_qsum(qb, [gen_rotvec(r, st if r.random() < 0.8 else r.choice(RV_STYLES)) for _ in range(n)], style=st))
+        rs = [gen_rotvec(r, st if r.random() < 0.8 else r.choice(RV_STYLES)) for _ in range(n)]
+        if n >= 2 and st == "general" and r.random() < 0.5:
+            rs, st = neardup_rv(r, rs), "near-duplicate-columns"
+        cases.append(mk_qsum(qb, rs, style=st))
     for k in range(n_each):
         n = widths[k % len(widths)]
         m = r.choice([1, 1, 2, 3])
@@ -262,6 +296,8 @@ def gen_phase1(g, n_each):
                 ql.append([-x for x in qmul(true_exp(gen_rotvec(r, r.choice(["near-cut", "general"]))), qr[0])])
             else:
                 ql.append(list(qmul(true_exp(gen_rotvec(r, "near-pi")), qr[0])))
+        if n >= 2 and st == "independent" and r.random() < 0.5:
+            ql, st = neardup_q(r, ql), "near-duplicate-columns"
         base = len(cases)
         cases.append(mk_qdiff(ql, qr, style=st))
         # double cover: the real function again with negated operands
@@ -771,6 +807,23 @@ def case_from_line(ln, style):
     raise ValueError(ln)
 
 
+def build_plain():
+    """h_quat.cpp (the utils templates are header-only) without sanitizers at -O2 -DNDEBUG -march=native: Eigen's vectorised
+    quaternion product and other optimisation-dependent paths that the -O1 sanitizer build does not take"""
+    out = vlib.BUILD / "plain" / "h"
+    out.mkdir(parents=True, exist_ok=True)
+    binary, dep = out / "h_quat_plain", out / "h_quat_plain.d"
+    src = vlib.VERIF / "harness" / "h_quat.cpp"
+    with vlib.locked("plain-h_quat"):
+        if vlib._deps_stale(binary, dep, [src]):
+            cmd = ["g++", "-std=c++11", "-O2", "-DNDEBUG", "-march=native", "-I", str(vlib.REPO / "src/BayesFilters/include"), "-I", vlib.EIGEN_INC,
+                   "-I", str(vlib.VERIF / "harness"), "-MMD", "-MF", str(dep), str(src), "-o", str(binary)]
+            rc, o, e = vlib.sh(cmd)
+            if rc != 0:
+                raise vlib.BuildError("plain harness h_quat failed to compile:\n%s" % e[-4000:])
+    return binary
+
+
 def run(ctx):
     ctx.proof_stage()
     if not ctx.quick() and not ctx.replay:
@@ -820,6 +873,27 @@ def run(ctx):
     Dm_lines = vlib.run_driver([lines[i] + " " + " ".join(hexd(x) for x in v) for i, v in mean_idx])
     Dm = {i: d for (i, _), d in zip(mean_idx, Dm_lines)}
     check_mean(cases, H, Dm, P, stats)
+    # second pass: phase 1 and the means through the plain -O2 build, same predicates
+    plain = build_plain()
+    Hp, logsp = vlib.run_harness(plain, lines)
+    Pp, pstats = [], {"branches": {}, "round_trips": {}, "mean_styles": {}}
+    saved = [c.get("res") for c in cases]
+    check_phase1(cases, Hp, D, Pp, pstats)
+    mean_idx_p = []
+    for i, c in enumerate(cases):
+        if c["op"] == "qmean":
+            colsp, _ = parse_cols(Hp[i], 4, 1)
+            if colsp is not None and finite(colsp[0]):
+                mean_idx_p.append((i, colsp[0]))
+    Dmp_lines = vlib.run_driver([lines[i] + " " + " ".join(hexd(x) for x in v) for i, v in mean_idx_p])
+    check_mean(cases, Hp, {i: d for (i, _), d in zip(mean_idx_p, Dmp_lines)}, Pp, pstats)
+    for c, r_ in zip(cases, saved):
+        c["res"] = r_
+    P += [(k, key, "[plain -O2 -march=native build] " + what, ref) for (k, key, what, ref) in Pp]
+    stats["plain_build"] = {"cases": len(lines), "crashes": len(logsp), "tight_disagreements_note": pstats.get("tight_disagreements", 0),
+                            "max_unit_defect": pstats.get("max_unit_defect"), "max_eig_residual_rel": pstats.get("max_eig_residual_rel")}
+    for i, log in list(logsp.items())[:3]:
+        ctx.violation("crash:plain:" + Hp[i], "plain build crashed on a valid input: %s" % Hp[i], {"harness": "h_quat (plain)", "input_lines": [lines[i]], "log": log[-1500:]})
     # the same templates with DerivedScalar = float
     fcases = [c for c in replay_float] if ctx.replay else gen_float(ctx.gen("float"), ctx.n(17, 340))
     Hf, logsf = vlib.run_harness(binary, [c["line"] for c in fcases])
